@@ -1007,7 +1007,10 @@ pub fn explore(sc: &Scenario, opts: &IlvOpts, col: &mut Collector) -> IlvStats {
         if tr.conflict {
             conflict_execs += 1;
         }
-        for v in &tr.viol {
+        // a scenario that frees a block nobody holds is a bug of the scenario generator:
+        // nothing observed in such an execution is a verdict
+        let machinery = tr.viol.iter().any(|v| v.prop == "MACHINERY");
+        for v in tr.viol.iter().filter(|v| !machinery || v.prop == "MACHINERY") {
             let mut v = v.clone();
             if !v.clause.starts_with("panic:") && !v.clause.contains("gave up waiting") {
                 v.clause = format!("{} [history: {}]", v.clause, sc.shape());
